@@ -178,6 +178,13 @@ class Exec:
             v = self.havoc(self.locs.get(place))
             env[place] = v              # the same unassigned local read twice on a path is the same value
             return v
+        m = re.match(r"^(.*)\[(_\d+)\]$", place, re.S)
+        if m and (m.group(1).startswith("(") and match_paren(m.group(1), 0) == len(m.group(1)) - 1 or re.match(r"^_\d+$", m.group(1))):
+            base = self.place(env, m.group(1))              # P[_i]: element of a slice / array
+            iv = env.get(m.group(2))
+            if base[0] == "opaque" and iv and iv[0] == "int":
+                return self.proj_of(base, f"[{iv[1]}]")
+            return self.opq()
         if place.startswith("(") and match_paren(place, 0) == len(place) - 1:
             inner = place[1:-1].strip()
             if inner.startswith("*"):
